@@ -120,7 +120,8 @@ def run_deductive(pid, tier, jobs):
     vacuous = [r.name for _, r in normal if not r.undecided and not r.error and r.nonvacuous_paths == 0]
     # a canary must not be discharged ("failed" with a model, or "unknown" where the solver cannot build a model of the
     # quantified hypotheses) — what matters is that the pipeline does not prove a false clause
-    canary_ok = all(any(c.status in ("failed", "unknown") for c in r.checks) for _, r in canaries) if canaries else None
+    decided_canaries = [(h, r) for h, r in canaries if not r.undecided]
+    canary_ok = all(any(c.status in ("failed", "unknown") for c in r.checks) for _, r in decided_canaries) if decided_canaries else None
     loader = get_loader()
     functions = []
     for modname, qual in getattr(mod, "FUNCTIONS", []):
@@ -277,6 +278,12 @@ def main(argv=None):
             path, confirmed, what = replay_model(pid, oid, e, outdir)
             if oid in known_obl:
                 known_hits.append((known_obl[oid].get("id", known_obl[oid].get("id_regex")), known_obl[oid]["what"]))
+                continue
+            if (oid.endswith("::uncaught-exception") or "::reaches-" in oid) and not confirmed:
+                # harness-level obligation: the ABSTRACT run raised / did not reach its end.  Without a native witness this says
+                # that the sidecar model no longer fits the code (e.g. a new `assert` over a value the model keeps abstract),
+                # not that the property is violated: undecided, the bounded driver decides.
+                undecided_notes.append(f"obligation {oid}: the abstract run failed ({(e.get('models') or [{}])[0].get('detail')}) and no native input reproduces it")
                 continue
             violations.append((oid, path, confirmed, what))
         if obligations == 0 and not ded["undecided"] and not ded["errors"]:
